@@ -211,6 +211,9 @@ func c02Cfg(rng *rand.Rand, up4 bool) hCfg {
 	if !up4 {
 		c.Mods = append(c.Mods, "uppdr", "create", "remove")
 		c.MaxPairs = 2
+		if rng.Intn(3) == 0 {
+			c.PChooseDL = 35
+		}
 	}
 	c.Seqs = func(r *rand.Rand) uint32 {
 		switch r.Intn(8) {
